@@ -12,10 +12,18 @@ static std::vector<std::string> SOLS;          // catalogue without the two fixt
 static long double POOL[32][4];
 static double cbK_d(double) { return 2.5; }
 static long double cbK_l(long double) { return 2.5L; }
+// re-entrant variants: the callback calls the library again (same handle, another point) before returning its constant
+static bool g_in_cb = false;
+static double cbKre_d(double) { if (!g_in_cb) { g_in_cb = true; volatile double q = MASA::masa_eval_source_rho_u<double>(0.8125); (void)q; volatile double t = MASA::masa_eval_exact_t<double>(-0.4375); (void)t; g_in_cb = false; } return 2.5; }
+static long double cbKre_l(long double) { if (!g_in_cb) { g_in_cb = true; volatile long double q = MASA::masa_eval_source_rho_u<long double>(0.8125L); (void)q; volatile long double t = MASA::masa_eval_exact_t<long double>(-0.4375L); (void)t; g_in_cb = false; } return 2.5L; }
+template <class S> static FP<S> cbKre();
+template <> FP<double> cbKre<double>() { return cbKre_d; }
+template <> FP<long double> cbKre<long double>() { return cbKre_l; }
 template <class S> static FP<S> cbK();
 template <> FP<double> cbK<double>() { return cbK_d; }
 template <> FP<long double> cbK<long double>() { return cbK_l; }
 static bool g_allow_wild = true;
+static FpEnv g_fpenv_ops = fpenv_now();
 static std::string g_focus = "store";
 
 static std::string rand_handle() {
@@ -266,7 +274,11 @@ template <class S> struct Ops {
     std::string b;
     // errno as an unrelated libm call anywhere in the process may have left it: the value must not depend on it
     { static const int EN[] = {0, 0, EDOM, ERANGE}; errno = EN[R->below(4)]; }
-    Outcome o = guarded([&] { S r = call_ev<S>(e, as, idx, cbK<S>()); b = bits(r); }, false);
+    // callback evaluators: half of the time with a callback that re-enters the library; some calls from the persistent second thread
+    FP<S> fcb = (e.kind == KF && R->coin()) ? cbKre<S>() : cbK<S>();
+    const bool hop = R->below(12) == 0;
+    Outcome o = guarded([&] { S r; if (hop) WORKER.run([&] { r = call_ev<S>(e, as, idx, fcb); }); else r = call_ev<S>(e, as, idx, fcb); b = bits(r); }, false);
+    { FpEnv now = fpenv_now(); if (!(now == g_fpenv_ops)) { hviol("C10", "floating-point-environment-changed:" + e.id, "an evaluator call changed the floating-point environment from " + g_fpenv_ops.str() + " to " + now.str() + " (later results of ANY evaluator depend on it)"); g_fpenv_ops = now; } }
     if (o.fatal) b = "FATAL" + std::to_string(o.code);
     if (o.abnormal) b = "ABNORMAL";
     if (outp) *outp = o.out;
